@@ -246,6 +246,12 @@ def rts(filt, trans):
     ms, Ps = [None] * T, [None] * T
     Gs = [None] * (T - 1)
     ms[-1], Ps[-1] = filt[-1]
+    # float64 rounding bound of the smoothed means: m_s = m + G (m_s+ - Phi m) is a gain applied to a
+    # difference of nearly equal vectors; c*eps*(|m_s+| + |Phi||m|) of noise is amplified by |G| and propagates.
+    c_eps = 10.0 * 2.0**-52
+    noise = [None] * T
+    noise[-1] = np.zeros(len(ms[-1]))
+    _abs = np.vectorize(abs, otypes=[object])
     for k in range(T - 2, -1, -1):
         m, P = filt[k]
         Phi, Q = trans[k]
@@ -260,4 +266,7 @@ def rts(filt, trans):
         Ps[k] = P + mpl.mm(G, Ps[k + 1] - Pp, G.T)
         Ps[k] = 0.5 * (Ps[k] + Ps[k].T)
         Gs[k] = G
+        inner = c_eps * (mpl.F(_abs(ms[k + 1])) + mpl.F(mpl.mm(_abs(Phi), _abs(m)))) + noise[k + 1]
+        noise[k] = mpl.F(_abs(G)) @ inner + c_eps * mpl.F(_abs(m))
+    rts.last_noise = noise
     return ms, Ps, Gs
